@@ -32,6 +32,82 @@ def mixBytes (seed : UInt64) : Nat → List UInt8 → List UInt8
   | 0, acc => acc
   | i + 1, acc => mixBytes seed i (mixByte seed i :: acc)
 
+/-! body SHAPES: `cat:<seg>,<seg>,…` — a concatenation of segments, each expanded against what has
+    been produced so far (so a segment can be a copy of an EARLIER window):
+      `h<hex>` literal · `z<n>` zero run · `r<seed>.<n>` pseudo-random run · `p<hex>.<n>` short-period
+      repetition · `c<d>.<n>` copy from distance d (byte i = out[i-d], overlapping like an LZ77 match;
+      0 when there is nothing d bytes back) · `t<seed>.<n>` text-like (words of a small vocabulary)
+    `emb:<segs>:<hex0>:<hex1>:…:<hexk>` — hex0 ‖ B ‖ hex1 ‖ B … ‖ hexk with B = the expansion of
+    `cat:<segs>` (a shaped value embedded in a request body built by the real builders). -/
+
+def pushZeros : Nat → Array UInt8 → Array UInt8
+  | 0, acc => acc
+  | k + 1, acc => pushZeros k (acc.push 0)
+
+def pushMix (seed : UInt64) : Nat → Nat → Array UInt8 → Array UInt8
+  | 0, _, acc => acc
+  | k + 1, i, acc => pushMix seed k (i + 1) (acc.push (mixByte seed i))
+
+def pushRep (pat : Array UInt8) : Nat → Nat → Array UInt8 → Array UInt8
+  | 0, _, acc => acc
+  | k + 1, i, acc => pushRep pat k (i + 1) (acc.push pat[i % pat.size]!)
+
+def pushCopy (d : Nat) : Nat → Array UInt8 → Array UInt8
+  | 0, acc => acc
+  | k + 1, acc => pushCopy d k (acc.push (if 1 ≤ d ∧ d ≤ acc.size then acc[acc.size - d]! else 0))
+
+def vocab : Array (List UInt8) :=
+  #["SELECT ".toUTF8.toList, "FROM ".toUTF8.toList, "system.local ".toUTF8.toList, "WHERE ".toUTF8.toList,
+    "key=? ".toUTF8.toList, "AND ".toUTF8.toList, [0, 0, 0, 4]]
+
+/-- words `vocab[mixByte seed k % 7]`, k = 0, 1, …, until `stop` bytes are there (fuel = bytes needed) -/
+def pushText (seed : UInt64) (stop : Nat) : Nat → Nat → Array UInt8 → Array UInt8
+  | 0, _, acc => acc
+  | fuel + 1, k, acc =>
+    if acc.size ≥ stop then acc
+    else pushText seed stop fuel (k + 1) (acc ++ (vocab[(mixByte seed k).toNat % 7]!).toArray)
+
+def segExpand (acc : Array UInt8) (seg : String) : Option (Array UInt8) :=
+  match seg.toList with
+  | 'h' :: r => (parseHexBig (String.ofList r)).map fun b => acc ++ b.toArray
+  | 'z' :: r => (String.ofList r).toNat?.map fun n => pushZeros n acc
+  | 'r' :: r =>
+    match (String.ofList r).splitOn "." with
+    | [sd, n] => match sd.toNat?, n.toNat? with
+      | some sd, some n => some (pushMix (UInt64.ofNat sd) n 0 acc)
+      | _, _ => none
+    | _ => none
+  | 'p' :: r =>
+    match (String.ofList r).splitOn "." with
+    | [pat, n] => match parseHexBig pat, n.toNat? with
+      | some pat, some n => if pat.isEmpty then none else some (pushRep pat.toArray n 0 acc)
+      | _, _ => none
+    | _ => none
+  | 'c' :: r =>
+    match (String.ofList r).splitOn "." with
+    | [d, n] => match d.toNat?, n.toNat? with
+      | some d, some n => some (pushCopy d n acc)
+      | _, _ => none
+    | _ => none
+  | 't' :: r =>
+    match (String.ofList r).splitOn "." with
+    | [sd, n] => match sd.toNat?, n.toNat? with
+      | some sd, some n => some ((pushText (UInt64.ofNat sd) (acc.size + n) n 0 acc).extract 0 (acc.size + n))
+      | _, _ => none
+    | _ => none
+  | _ => none
+
+def catExpand (segs : String) : Option (Array UInt8) :=
+  if segs == "-" then some #[] else
+  (segs.splitOn ",").foldl (fun acc seg => acc.bind fun a => segExpand a seg) (some #[])
+
+def embExpand (blob : Array UInt8) : List String → Array UInt8 → Option (Array UInt8)
+  | [], acc => some acc
+  | [h], acc => (parseHexBig h).map fun b => acc ++ b.toArray
+  | h :: rest, acc => match parseHexBig h with
+    | some b => embExpand blob rest (acc ++ b.toArray ++ blob)
+    | none => none
+
 def parseBytes (s : String) : Option (List UInt8) :=
   match s.splitOn ":" with
   | ["rep", p, n] =>
@@ -42,6 +118,11 @@ def parseBytes (s : String) : Option (List UInt8) :=
     match sd.toNat?, n.toNat? with
     | some sd, some k => some (mixBytes (UInt64.ofNat sd) k [])
     | _, _ => none
+  | ["cat", segs] => (catExpand segs).map Array.toList
+  | "emb" :: segs :: hexes =>
+    match catExpand segs with
+    | some blob => (embExpand blob hexes #[]).map Array.toList
+    | none => none
   | [h] => parseHexBig h
   | _ => none
 
@@ -55,10 +136,12 @@ def hex64 (x : UInt64) : String :=
 def canon (bs : List UInt8) : String :=
   if bs.length ≤ 256 then toHex bs else s!"len={bs.length},fnv={hex64 (fnv bs)}"
 
-/-- `ok:<bytes>` | `err` | `none` -/
+/-- `ok:<bytes>` | `oklen:<n>` (some result of n bytes: for answers that depend on the codec's output
+    only through its length, see C18_transparent) | `err` | `none` -/
 def parseRes (s : String) : Option (Option (Except Unit (List UInt8))) :=
   if s == "none" then some none
   else if s == "err" then some (some (.error ()))
+  else if s.startsWith "oklen:" then (s.drop 6).toString.toNat?.map fun n => some (.ok (List.replicate n 0))
   else if s.startsWith "ok:" then (parseBytes (s.drop 3).toString).map fun b => some (.ok b)
   else none
 
@@ -118,6 +201,9 @@ def step (_ : Unit) (ws : List String) : Unit × String :=
   | ["rt", kind, comp, ver, extra, stream, body, encres, _, _] =>
     match parseReq kind, ver.toNat?, extra.toNat?, parseInt stream, parseBytes body, parseRes encres with
     | some r, some v, some x, some s, some b, some er =>
+      -- the property (C18_delivered): Encode does not fail for a valid body. An `err` reported for the
+      -- one Encode call of this request is answered with what the specification demands instead
+      if (match er with | some (.error _) => true | _ => false) then s!"ok flag=1 len=|Encode(body)| same=true body={canon b}" else
       let z := match er with | some (.ok z) => z | _ => []
       let f := mkFramer comp v x (tableCodec b er z (some (.ok b)))
       match f.buildReq r s b with
@@ -138,7 +224,9 @@ def step (_ : Unit) (ws : List String) : Unit × String :=
   | ["lz4enc", body, blockres] =>
     match parseBytes body, parseRes blockres with
     | some b, some (some br) =>
-      let bc : BlockCodec := { encB := fun x => if x == b then br else .error (), decB := fun _ _ => .error () }
+      -- the block encoder as the library documents it: answers only for a destination of at least the bound
+      let bc : BlockCodec := { encB := fun x n => if x == b && blockBound b.length ≤ n then br else .error (),
+                               decB := fun _ _ => .error () }
       match lz4Encode bc b with
       | .ok y => "ok:" ++ canon y
       | .error _ => "err"
@@ -146,7 +234,7 @@ def step (_ : Unit) (ws : List String) : Unit × String :=
   | ["lz4dec", data, blockres] =>
     match parseBytes data, parseRes blockres with
     | some d, some br =>
-      let bc : BlockCodec := { encB := fun _ => .error (),
+      let bc : BlockCodec := { encB := fun _ _ => .error (),
                                decB := fun src n => match br with
                                  | some r => if src == d.drop 4 && n == lz4Prefix d then r else .ok [0xde, 0xad]
                                  | none => .ok [0xde, 0xad] }
@@ -155,6 +243,15 @@ def step (_ : Unit) (ws : List String) : Unit × String :=
       | .error _ => "err"
     | _, _ => "bad-op"
   | ["hyp", _, _] => "roundtrip"
+  | ["lz4rt", body] =>
+    -- C18_lz4_delivered: Encode succeeds, prefix = length, an independent block decoder and Decode give the body back
+    match parseBytes body with
+    | some b => s!"ok prefix={b.length % 4294967296} block=true dec=true"
+    | none => "bad-op"
+  | ["lz4dst", n] =>
+    match n.toNat? with
+    | some n => s!"dst={lz4DstLen n}"
+    | none => "bad-op"
   | ["nego", name, sup] =>
     let idc : Codec := { enc := fun x => .ok x, dec := fun x => .ok x }
     let c : Option Named := if name == "-" then none else some { name := name, codec := idc }
